@@ -42,6 +42,7 @@ def obligations(ctx):
     value_compare(ctx)
     value_arithmetic(ctx)
     mint_builder_amounts(ctx)
+    int_from_str_range(ctx)
 
 
 # ---------------------------------------------------------------- Value comparison == component-wise comparison
@@ -228,18 +229,18 @@ def value_arithmetic(ctx):
 IMIN, IMAX = -(1 << 64), (1 << 64) - 1
 
 
-def mint_builder_amounts(ctx):
+def mint_builder_amounts(ctx, parts=("range", "build"), name="c14_e2_mint_builder_amounts_in_range"):
     """'every signed integer obtainable through the public API lies within -2^64..2^64-1': MintBuilder::add_asset / set_asset
     accumulate signed amounts per (policy, asset name).  One step from a state in which the policy already holds the asset with an
     arbitrary in-range amount (and from the empty state), with an arbitrary in-range amount offered: on Ok the stored amount is
     old + offered (add) / offered (set) and lies within the range; MintBuilder::build hands out exactly the stored amounts and
     refuses a zero (the mint field is a multiasset<nonZeroInt64>, C03)."""
     P = ctx.P
-    ob = Obligation(ctx, "c14_e2_mint_builder_amounts_in_range", "policy absent / present (native or Plutus) holding the asset with any in-range amount; offered amount: every Int of -2^64..2^64-1; add and set",
+    ob = Obligation(ctx, name, "policy absent / present (native or Plutus) holding the asset with any in-range amount; offered amount: every Int of -2^64..2^64-1; add and set",
                     ["MintBuilder::add_asset", "MintBuilder::set_asset", "MintBuilder::update_mint_value", "MintBuilder::build", "MintAssets::insert"], fallback_native="e2n_c14_mint_builder_range")
     agg = Engine(P)
     nok = 0
-    for fn in ("add_asset", "set_asset"):
+    for fn in (("add_asset", "set_asset") if "range" in parts else ()):
         for pre in ("absent", "Native", "Plutus"):
             E = Engine(P, max_loop=4)
             E.U = agg.U
@@ -287,7 +288,7 @@ def mint_builder_amounts(ctx):
                 ob.vc("%s from %s: the stored amount lies within -2^64..2^64-1" % (fn, pre), o.pc, z3.And(stored >= IMIN, stored <= IMAX), info=dict(fn=fn, pre=pre))
             agg.stats["paths"] += E.stats["paths"]; agg.stats["feasibility_queries"] += E.stats["feasibility_queries"]; agg.stats["functions"] |= E.stats["functions"]
     # build(): hands out the stored amounts, refuses zero
-    for kind in ("Native", "Plutus"):
+    for kind in (("Native", "Plutus") if "build" in parts else ()):
         E = Engine(P, max_loop=4)
         E.U = agg.U
         amt = E.sym_int("stored_amount", "i128")
@@ -312,7 +313,7 @@ def mint_builder_amounts(ctx):
         if okb == 0:
             ob.fail("build (%s): no Ok path" % kind)
         agg.stats["paths"] += E.stats["paths"]; agg.stats["feasibility_queries"] += E.stats["feasibility_queries"]; agg.stats["functions"] |= E.stats["functions"]
-    if nok < 6:
+    if "range" in parts and nok < 6:
         ob.fail("expected Ok paths for add / set from three pre-states, saw %d" % nok)
     def nat(m, info=None):
         info = info or {}
@@ -332,3 +333,44 @@ def VM_deref(E, v):
     while isinstance(v, VRef):
         v = E.read_ref(v)
     return v
+
+
+def int_from_str_range(ctx):
+    """decimal strings: Int::from_str (also behind every JSON form of an Int) and BigNum::from_str hand out exactly the number
+    std's parser read, and only inside the type's range.  `str::parse::<i128 / u64>` is a stub returning an arbitrary number of
+    its type or an error (std's parser is trusted to read decimal strings exactly); what is decided is the crate's own range
+    check around it."""
+    P = ctx.P
+    ob = Obligation(ctx, "c14_e2_int_from_str_range", "the parsed number: every i128 (Int) / every u64 (BigNum); parse failures arbitrary", ["Int::from_str", "BigNum::from_str"], fallback_native="e2n_c14_decimal_strings")
+    agg = Engine(P)
+    for ty, pty, lo, hi in (("Int", "i128", IMIN, IMAX), ("BigNum", "u64", 0, U64)):
+        E = Engine(P, max_loop=4, opaque=[r"::to_json$"])
+        E.U = agg.U
+        x = E.sym_int("parsed_" + pty, pty)
+        g = z3.Bool("parse_ok")
+        def parse(E_, c, a, x=x, g=g):
+            if E_.choose([g, z3.Not(g)], "parse") == 1:
+                return VEnum("Result", "Err", [VOpaque("parse_error")])
+            return VEnum("Result", "Ok", [VInt(x.t, x.ty)])
+        E.extra_intrinsics[r"str::parse::<(i128|u64)>$|<impl str>::parse::<(i128|u64)>$"] = parse
+        E.extra_intrinsics[r"(^|::)format$"] = lambda E_, c, a: VOpaque("text")
+        try:
+            outs = E.explore("%s::from_str" % ty, lambda: [R_(VOpaque("text"), "string")], max_paths=50)
+        except Unsupported as e:
+            ob.fail("%s::from_str cannot be executed (%s)" % (ty, str(e)[:200])); continue
+        nok = 0
+        for o in outs:
+            if o.kind != "return":
+                ob.vc("no panic in %s::from_str (%s %s)" % (ty, o.kind, o.msg[:80]), o.pc, z3.BoolVal(False), info=dict(ty=ty)); continue
+            if o.value.variant != "Ok":
+                continue
+            nok += 1
+            v = VM_deref(E, o.value.fields[0]).fields[0].t
+            ob.vc("%s::from_str Ok(v) => v is the number parsed and lies within the type's range" % ty, o.pc, z3.And(g, v == x.t, v >= lo, v <= hi), info=dict(ty=ty))
+        if nok == 0:
+            ob.fail("%s::from_str: no Ok path" % ty)
+        agg.stats["paths"] += E.stats["paths"]; agg.stats["feasibility_queries"] += E.stats["feasibility_queries"]; agg.stats["functions"] |= E.stats["functions"]
+    def nat(m, info=None):
+        v = mval(m, z3.Int("parsed_i128")) if (info or {}).get("ty") == "Int" else mval(m, z3.Int("parsed_u64"))
+        return "e2n_c14_decimal_strings", [[1 if v < 0 else 0], le_bytes(abs(v) & U64, 8), le_bytes((abs(v) >> 64) & U64, 8)]
+    ob.finish(agg, nat)
